@@ -73,6 +73,7 @@ type caseT struct {
 	Instances int       `json:"instances"`
 	Len       int       `json:"len"`
 	LogDir    string    `json:"logdir"`
+	Iters     int       `json:"iters"` // race mode: every goroutine repeats its calls this often per trial (steady state)
 }
 
 type mismatch struct {
@@ -143,7 +144,16 @@ func inExp(o obs, exp []resE) bool {
 	return false
 }
 
-func argClass(c callT) string { return c.Tok }
+// argClass is the class of the argument in a signature: what the call does, not its exact value.
+func argClass(c callT) string {
+	switch {
+	case strings.HasPrefix(c.Tok, "lim_"):
+		return "limits_given"
+	case c.Tok == "nrand":
+		return "limits_left_out"
+	}
+	return c.Tok
+}
 
 // evalN evaluates one call n times on one instance; returns the distinct outcomes (key -> sample).
 func evalN(in *instance, c callT, n int, r *resT) (map[string]obs, []obs) {
@@ -202,6 +212,9 @@ func runHist(c caseT) (r resT) {
 	// divergences of the schema's state are keyed by what the call does, not by the exact argument
 	sigState := func(c callT, div string) map[string]any {
 		cls := argClass(c)
+		if in.kind == "objnest" && c.Op == "unser" && !strings.HasPrefix(c.Tok, "lim_") {
+			cls = "limits_left_out"
+		}
 		if (in.kind == "objmap" || in.kind == "objstruct") && c.Op == "unser" && c.Tok != "bad" {
 			if m := c.m(); m.N < 0 || (in.kind == "objstruct" && m.Sa < 0 && m.Sb < 0) {
 				cls = "default_filling"
@@ -301,7 +314,7 @@ func runHist(c caseT) (r resT) {
 			r.add(false, sigState(call, "result_aliases_schema"), detail(map[string]any{"before": clip(now.Defaults), "after": clip(after.Defaults)}))
 			prev = after
 		}
-		if len(used) == 1 && len(freshOut) == 1 {
+		if len(used) == 1 && len(freshOut) == 1 && keysOf(used)[0] == keysOf(freshOut)[0] {
 			// (schema as built, argument) -> outcome: the orchestrator requires one outcome per key over ALL
 			// histories and processes of the run
 			k := keysOf(used)[0]
@@ -329,8 +342,11 @@ var opTable = map[string][][2]string{
 	"mapcoll":   {{"unser", "collide"}, {"unser", "single"}, {"unser", "bad"}},
 	"oneof": {{"unser", "member_a"}, {"unser", "nodisc"}, {"ser", "member_a"}, {"valid", "member_a"},
 		{"valid", "member_a_bad"}, {"ser", "member_a_bad"}, {"unser", "member_a_bad"}},
-	"objdep": {{"valid", "dep"}, {"valid", "dep"}, {"ser", "dep"}, {"unser", "dep"}},
-	"enum":   {{"compat", "same"}, {"compat", "extra"}, {"unser", "member"}, {"unser", "bad"}},
+	"chain":   {{"unser", "scalar"}, {"unser", "badscalar"}, {"unser", "nested"}, {"compat", "scalar"}},
+	"compat2": {{"compat", "same"}, {"compat", "deep"}},
+	"objnest": {{"unser", "nrand"}, {"unser", "lim_rand"}, {"unser", "lim_rand"}, {"unsermid", "lim_rand"}},
+	"objdep":  {{"valid", "dep"}, {"valid", "dep"}, {"ser", "dep"}, {"unser", "dep"}},
+	"enum":    {{"compat", "same"}, {"compat", "extra"}, {"unser", "member"}, {"unser", "bad"}},
 }
 
 func runRandom(c caseT) (r resT) {
@@ -398,6 +414,20 @@ func runRandom(c caseT) (r resT) {
 				m = flat{int64(rng.Intn(10)), -1, int64(rng.Intn(10)), int64(rng.Intn(10))}
 			case tok == "member_a":
 				m = flat{int64(rng.Intn(10)), 1, -1, -1}
+			case tok == "nrand" || tok == "lim_rand":
+				pick := func() int64 {
+					if rng.Intn(2) == 0 {
+						return -1
+					}
+					return int64(rng.Intn(10))
+				}
+				m = flat{pick(), -1, -1, -1}
+				if tok == "lim_rand" {
+					m.T, m.Sa, m.Sb = pick(), pick(), pick()
+				}
+				if op == "unsermid" {
+					m.N = -1
+				}
 			case tok == "member_a_bad":
 				m = flat{100, 1, -1, -1}
 			case tok == "dep":
@@ -676,6 +706,10 @@ func raceTrials(c caseT, out *oneshotOut) {
 		detail["ckind"], detail["origin"], detail["goroutines"] = c.CKind, c.Origin, c.N
 		out.Mismatches = append(out.Mismatches, mismatch{Sig: sg, Detail: detail})
 	}
+	iters := c.Iters
+	if iters < 1 {
+		iters = 1
+	}
 	iso := map[string]obs{} // the isolated result of each distinct call, computed once, after the first trial
 	for t := 0; t < c.Trials; t++ {
 		if c.CKind == "meta" {
@@ -699,8 +733,10 @@ func raceTrials(c caseT, out *oneshotOut) {
 				prog := c.Progs[g%len(c.Progs)]
 				res := make([]obs, 0, len(prog))
 				<-start
-				for _, op := range prog {
-					res = append(res, in.call(op.Op, op.Tok, op.m()))
+				for it := 0; it < iters; it++ {
+					for _, op := range prog {
+						res = append(res, in.call(op.Op, op.Tok, op.m()))
+					}
 				}
 				results[g] = res
 			}(g)
@@ -712,7 +748,8 @@ func raceTrials(c caseT, out *oneshotOut) {
 		// package-level values were first used by the concurrent calls)
 		for g := 0; g < c.N; g++ {
 			prog := c.Progs[g%len(c.Progs)]
-			for i, op := range prog {
+			for i := range results[g] {
+				op := prog[i%len(prog)]
 				o := results[g][i]
 				out.Evals++
 				if o.FlatErr != "" {
@@ -737,7 +774,7 @@ func raceTrials(c caseT, out *oneshotOut) {
 				if !o.ArgSame {
 					add(sig(op.Op, "argument_modified"), map[string]any{"call": k, "argument": o.ArgDiff})
 				}
-				if t == 0 && in.kind != "steps" {
+				if t == 0 && i < len(prog) && in.kind != "steps" {
 					if g == 0 && i == 0 {
 						out.Trace = append(out.Trace, map[string]any{"ev": "reset", "kind": in.kind, "origin": c.Origin, "ckind": c.CKind})
 					}
